@@ -36,6 +36,8 @@ func init() {
 	Register("os.UserHomeDir", func(it *Interp, fn *ssa.Function, a []Value) Value {
 		return TupleV{StrV{S: "/home/verif"}, IfaceV{}}
 	})
+	// strconv error values clone the offending string through unsafe.String
+	Register("internal/stringslite.Clone", func(it *Interp, fn *ssa.Function, a []Value) Value { return a[0] })
 	// log line formatting (emoji substitution) is ignored
 	Register("github.com/kyokomi/emoji.Sprintf", func(it *Interp, fn *ssa.Function, a []Value) Value {
 		return OpaqueV{Why: "emoji.Sprintf"}
